@@ -116,6 +116,15 @@ fn equal_diagonal(rng: &mut Rng, n: usize) -> Vec<Vec<f64>> {
     a
 }
 
+/// the n x n array with logical entries f(i, j) in one of three memory layouts
+fn with_layout<T: Clone>(n: usize, layout: u64, f: impl Fn(usize, usize) -> T) -> Array2<T> {
+    match layout {
+        0 => Array2::from_shape_fn((n, n), |(i, j)| f(i, j)),
+        1 => Array2::from_shape_fn((n, n), |(i, j)| f(j, i)).reversed_axes(),
+        _ => Array2::from_shape_fn((n, 2 * n), |(i, j)| f(i, j / 2)).slice_move(ndarray::s![.., ..;2]),
+    }
+}
+
 /// pivoting path of partial pivoting on the real part (harness-side classification)
 fn pivot_path(a: &[Vec<f64>]) -> (usize, Vec<usize>) {
     let n = a.len();
@@ -407,10 +416,13 @@ fn check_crate<T: Jetty<F = f64> + Copy>(tname: &str, ctx: &Ctx, shard: usize, n
         let (swaps, seq) = pivot_path(&re);
         let a: Mats<T> = make_matrix(&mut rng, &re, &b, &shape, false, scale);
         let rhs: Mats<T> = make_vector(&mut rng, n, &b, &shape);
-        let arr = Array2::from_shape_fn((n, n), |(i, j)| a.vals[i][j]);
+        // memory layout of the input array: row-major, column-major, non-contiguous (every second
+        // column of a wider array) -- the routines index logically, so the answer must not change
+        let layout = ci % 3;
+        let arr = with_layout(n, layout, |i, j| a.vals[i][j]);
         let bvec = Array1::from_shape_fn(n, |i| rhs.vals[i][0]);
         let case = || json!({"type": tname, "n": n, "kappa": kappa, "scale": scale, "row_order": format!("{:?}", order), "A_parts": a.vals.iter().map(|r| r.iter().map(|x| floats(&parts(x, &shape))).collect::<Vec<_>>()).collect::<Vec<_>>(), "b_parts": rhs.vals.iter().map(|r| floats(&parts(&r[0], &shape))).collect::<Vec<_>>()});
-        let class = format!("LU|{}|n{}|{}{}|swaps-{}", tname, n, format!("{:?}", order), if scale != 1.0 { "-scaled" } else { "" }, if swaps % 2 == 0 { "even" } else { "odd" });
+        let class = format!("LU|{}|n{}|{}{}|swaps-{}|{}", tname, n, format!("{:?}", order), if scale != 1.0 { "-scaled" } else { "" }, if swaps % 2 == 0 { "even" } else { "odd" }, ["row-major", "column-major", "non-contiguous"][layout as usize]);
         acc.observe(&class, n >= 2 && swaps >= 1);
         acc.count(&format!("pivot_sequence[{}:{:?}]", n, seq), 1);
         let lu = match guarded(|| LU::new(arr.clone())) {
@@ -530,7 +542,7 @@ fn check_crate<T: Jetty<F = f64> + Copy>(tname: &str, ctx: &Ctx, shard: usize, n
             let escale = (2.0f64).powi(*rng.choose(&[0, 0, 0, -60, 40]));
             let sre: Vec<Vec<f64>> = sre.iter().map(|r| r.iter().map(|v| v * escale).collect()).collect();
             let s: Mats<T> = make_matrix(&mut rng, &sre, &b, &shape, true, 0.5 * escale);
-            let sarr = Array2::from_shape_fn((n, n), |(i, j)| s.vals[i][j]);
+            let sarr = with_layout(n, (ci / 2) % 3, |i, j| s.vals[i][j]);
             let ecase = || json!({"type": tname, "n": n, "hostile_reducible_real_part": hostile, "A_parts": s.vals.iter().map(|r| r.iter().map(|x| floats(&parts(x, &shape))).collect::<Vec<_>>()).collect::<Vec<_>>()});
             acc.observe(&format!("jacobi|{}|n{}|{}{}", tname, n, if hostile { "reducible-real-part" } else if sparse { "irreducible-with-zero-entries" } else if eqdiag { "equal-diagonal-tridiagonal" } else { "dense" }, if escale != 1.0 { "-scaled" } else { "" }), n >= 2);
             match guarded(|| jacobi_eigenvalue(sarr.clone(), 200)) {
